@@ -6235,7 +6235,52 @@ impl Ptr {
 }
 #[verifier::external_body]
 pub fn without_provenance(addr: usize) -> (r: Ptr) ensures r.a() == addr { unimplemented!() }
+impl Ptr {
+    // strict-provenance API (mod polyfill): map_addr(f) = with_addr(f(addr))
+    #[verifier::external_body]
+    pub fn map_addr<F: FnOnce(usize) -> usize>(&self, f: F) -> (r: Ptr)
+        requires f.requires((self.a(),)),
+        ensures f.ensures((self.a(),), r.a())
+    { unimplemented!() }
+    #[verifier::external_body]
+    pub fn cast<T>(&self) -> (r: TPtr<T>) ensures r.a() == self.a() { unimplemented!() }
+}
+#[verifier::external_body]
+#[verifier::reject_recursive_types(T)]
+pub struct TPtr<T> { _p: core::marker::PhantomData<T> }
+impl<T> TPtr<T> { pub uninterp spec fn a(&self) -> usize; }
+#[verifier::external_body] pub struct TzifOwned { _p: () }
+#[verifier::external_body] pub struct PosixTimeZoneOwned { _p: () }
+/// ghost protocol: `addr` is the data pointer of a live `Arc<T>` (as returned by Arc::into_raw)
+pub uninterp spec fn is_live_arc<T>(addr: usize) -> bool;
+pub struct Arc {}
+impl Arc {
+    // safety contract of std::sync::Arc::{increment,decrement}_strong_count: the pointer must have been obtained
+    // through Arc::<T>::into_raw (same T, hence also aligned for T) and the Arc must still be live
+    #[verifier::external_body]
+    pub fn increment_strong_count<T>(p: TPtr<T>) requires p.a() % 8 == 0, is_live_arc::<T>(p.a()) { unimplemented!() }
+    #[verifier::external_body]
+    pub fn decrement_strong_count<T>(p: TPtr<T>) requires p.a() % 8 == 0, is_live_arc::<T>(p.a()) { unimplemented!() }
+}
 pub struct Repr { pub ptr: Ptr }
+impl Repr {
+    /// C20 representation invariant of a handle: the low three bits are one of the six tags; for the Arc-backed kinds the
+    /// remaining bits are the 8-aligned data pointer of a live Arc of the matching type (how Repr::arc_tzif / arc_posix build it)
+    pub open spec fn rwf(&self) -> bool {
+        let a = self.ptr.a();
+        let tag = a & 7usize;
+        &&& tag <= 5
+        &&& (tag == 4 ==> exists|base: usize| base % 8 == 0 && #[trigger] is_live_arc::<TzifOwned>(base) && a == base + 4)
+        &&& (tag == 5 ==> exists|base: usize| base % 8 == 0 && #[trigger] is_live_arc::<PosixTimeZoneOwned>(base) && a == base + 5)
+    }
+}
+pub proof fn lemma_untag(base: usize, tag: usize, a: usize)
+    requires base % 8 == 0, tag <= 7, a == base + tag,
+    ensures (a & !7usize) == base, (a & 7usize) == tag,
+{
+    assert(base % 8 == 0 && tag <= 7 ==> ((base | tag) & !7usize) == base && ((base | tag) & 7usize) == tag) by (bit_vector);
+    assert(base % 8 == 0 && tag <= 7 ==> (base | tag) == base + tag) by (bit_vector);
+}
 impl Repr {
     pub const BITS: usize = 0b111;
     pub const UTC: usize = 1;
@@ -6372,6 +6417,142 @@ impl Repr {
             
             {
                 self.ptr.addr() & Repr::BITS
+            }
+        }
+}
+
+impl Repr {
+// @fn <Repr as Clone>::clone @src src/tz/timezone.rs:2283
+#[verifier::spinoff_prover]
+
+        pub fn clone(&self) -> (r: Repr)
+    requires
+        self.rwf(),
+    ensures
+        r.ptr.a() == self.ptr.a(),
+{
+            proof {
+                let a = self.ptr.a();
+                if a & 7usize == 4 {
+                    let base = choose|base: usize| base % 8 == 0 && #[trigger] is_live_arc::<TzifOwned>(base) && a == base + 4;
+                    lemma_untag(base, 4, a);
+                }
+                if a & 7usize == 5 {
+                    let base = choose|base: usize| base % 8 == 0 && #[trigger] is_live_arc::<PosixTimeZoneOwned>(base) && a == base + 5;
+                    lemma_untag(base, 5, a);
+                }
+            }
+
+            
+            
+            match self.tag() {
+                
+                Repr::UTC
+                | Repr::UNKNOWN
+                | Repr::FIXED
+                | Repr::STATIC_TZIF => Repr { ptr: self.ptr },
+                
+                Repr::ARC_TZIF => {
+                    let ptr = self.ptr.map_addr(|addr: usize| -> (r: usize) ensures r == addr & !Repr::ARC_TZIF { addr & !Repr::ARC_TZIF });
+                    
+                    
+                    
+                    
+                    
+                    {
+                        Arc::increment_strong_count(ptr.cast::<TzifOwned>());
+                    }
+                    Repr { ptr: self.ptr }
+                }
+                
+                Repr::ARC_POSIX => {
+                    let ptr = self.ptr.map_addr(|addr: usize| -> (r: usize) ensures r == addr & !Repr::ARC_TZIF { addr & !Repr::ARC_TZIF });
+                    
+                    
+                    
+                    
+                    
+                    {
+                        Arc::increment_strong_count(
+                            ptr.cast::<PosixTimeZoneOwned>(),
+                        );
+                    }
+                    Repr { ptr: self.ptr }
+                }
+                _ => {
+                    { let verif_da: bool = false; assert(verif_da); };
+                    
+                    
+                    {
+                        return vstd::pervasive::unreached();
+                    }
+                }
+            }
+        }
+}
+
+impl Repr {
+// @fn <Repr as Drop>::drop @src src/tz/timezone.rs:2334
+#[verifier::spinoff_prover]
+
+        pub fn drop(&mut self)
+    requires
+        old(self).rwf(),
+{
+            proof {
+                let a = self.ptr.a();
+                if a & 7usize == 4 {
+                    let base = choose|base: usize| base % 8 == 0 && #[trigger] is_live_arc::<TzifOwned>(base) && a == base + 4;
+                    lemma_untag(base, 4, a);
+                }
+                if a & 7usize == 5 {
+                    let base = choose|base: usize| base % 8 == 0 && #[trigger] is_live_arc::<PosixTimeZoneOwned>(base) && a == base + 5;
+                    lemma_untag(base, 5, a);
+                }
+            }
+
+            
+            
+            match self.tag() {
+                
+                Repr::UTC
+                | Repr::UNKNOWN
+                | Repr::FIXED
+                | Repr::STATIC_TZIF => {}
+                
+                Repr::ARC_TZIF => {
+                    let ptr = self.ptr.map_addr(|addr: usize| -> (r: usize) ensures r == addr & !Repr::BITS { addr & !Repr::BITS });
+                    
+                    
+                    
+                    
+                    
+                    {
+                        Arc::decrement_strong_count(ptr.cast::<TzifOwned>());
+                    }
+                }
+                
+                Repr::ARC_POSIX => {
+                    let ptr = self.ptr.map_addr(|addr: usize| -> (r: usize) ensures r == addr & !Repr::BITS { addr & !Repr::BITS });
+                    
+                    
+                    
+                    
+                    
+                    {
+                        Arc::decrement_strong_count(
+                            ptr.cast::<PosixTimeZoneOwned>(),
+                        );
+                    }
+                }
+                _ => {
+                    { let verif_da: bool = false; assert(verif_da); };
+                    
+                    
+                    {
+                        return vstd::pervasive::unreached();
+                    }
+                }
             }
         }
 }
